@@ -162,16 +162,48 @@ def relation(method, target, vals):
     return out
 
 
+def _twin_spec(spec):
+    """The same case with every label that has a hash twin (gen.HASH_TWIN) replaced by its twin: operand tuples
+    that differ although their hashes agree."""
+    m = gen.HASH_TWIN
+
+    def lab(l):
+        return m.get(l, l) if isinstance(l, int) and not isinstance(l, bool) else l
+
+    def tree(t):
+        if t[0] == "v":
+            return ("v", lab(t[1]))
+        return (t[0],) + tuple(tree(c) for c in t[1:])
+
+    def operand(o):
+        if o is None:
+            return None
+        if o[0] == "l":
+            return ("l", lab(o[1]))
+        return ("e", o[1], tree(o[2]), o[3])
+    out = dict(spec)
+    out["labels"] = [lab(l) for l in spec["labels"]]
+    out["base"] = [[tuple(lab(l) for l in k), c] for k, c in spec["base"]]
+    out["target"] = operand(spec["target"])
+    out["ops"] = [operand(o) for o in spec["ops"]]
+    return out
+
+
 def run_case(spec, rec):
     import qubovert as qv
     with warnings.catch_warnings():
         warnings.simplefilter("ignore")
         _run(spec, rec, qv)
+        if any(isinstance(l, int) and not isinstance(l, bool) and l in gen.HASH_TWIN for l in spec["labels"]):
+            # a second, different call in the same process whose operands hash like the first one's
+            _run(_twin_spec(spec), rec, qv, count=False)
 
 
-def _run(spec, rec, qv):
+def _run(spec, rec, qv, count=True):
     method = spec["method"]
     has_target, lo, hi = METHODS[method]
+    if spec.get("wide"):
+        hi = WIDE_MAX
     pool = list(spec["labels"])
     lam = spec["lam"]
     ospecs = ([spec["target"]] if has_target else []) + list(spec["ops"])
@@ -258,6 +290,8 @@ def _run(spec, rec, qv):
         if not holds and not fv >= lam:
             raise Violation("penalty_below_lam_on_violating/%s" % method, "F=%r < lam=%r at %r (operand truth values %r); %s" % (
                 fv, lam, a, tv, detail))
+        if n > 8 and (r * 2654435761 + pad) % (1 << (n - 6)):
+            continue        # wide gates: is_solution_valid on a pseudo-random 1/2^(n-6) of the rows (about 64), F on all rows
         full = dict(full0)
         full.update(a)
         valid = lib(H.is_solution_valid, full, what="is_solution_valid")
@@ -288,11 +322,48 @@ def _run(spec, rec, qv):
         classes.append("base_shares_variables")
     if spec.get("exhaustive"):
         classes.append("exhaustive")
+    if spec.get("wide"):
+        classes.append("wide")
+    if not count:
+        rec.add("hash_twin_reruns")
+        return
     rec.case(spec, nontrivial, classes)
+
+
+# wide gates: 5..10 gate operands (+ target), plain labels with occasional repeats, over a 12-label pool
+WIDE_MAX = 10
+WIDE_COSTLY = ("XOR", "XNOR", "eq_OR", "eq_NOR", "eq_XOR", "eq_XNOR")
+WIDE_POOLS = [
+    [0, 1, 2, 3, 4, 5, 6, 7, 8, 9, 10, 11],
+    ["a", 0, "b", 1, ("x", 1), -3, "c", 2, -1, -2, "d", 7],
+]
+
+
+def _wide(method, pool, perm, n, repeat, lam, pad, with_base):
+    has_target = METHODS[method][0]
+    labels = [pool[i] for i in perm]
+    if method in WIDE_COSTLY:
+        n = min(n, 9)       # the library itself needs > 10 s to expand these gates over 10 operands
+    k = n + (1 if has_target else 0)
+    chosen = labels[:k]
+    if repeat and n >= 2:
+        chosen[-1] = chosen[-2]                 # one repeated operand
+    ops = [("l", l) for l in chosen]
+    base = [[tuple(labels[i % len(labels)] for i in key), c] for key, c in FIXED_BASE] if with_base else []
+    return {"method": method, "labels": labels, "base": base, "target": ops[0] if has_target else None,
+            "ops": ops[1:] if has_target else ops, "lam": lam, "pad": pad, "exhaustive": False, "wide": True}
+
+
+def wide():
+    multi = sorted(m for m, (t, lo, hi) in METHODS.items() if hi > 1)
+    return st.builds(_wide, st.sampled_from(multi), st.sampled_from(WIDE_POOLS), st.permutations(list(range(12))),
+                     gen.pick((5, 2), (6, 2), (7, 2), (8, 2), (9, 2), (10, 1)), gen.pick((False, 3), (True, 1)),
+                     st.sampled_from(LAMS), st.integers(0, 4095), st.booleans())
 
 
 def subchecks(tier):
     return [
         Sub("labels_exhaustive", None, run_case, quick=0, thorough=0, enumerate=enumerate_labels),
         Sub("generated", generated(), run_case, quick=20000, thorough=200000),
+        Sub("wide", wide(), run_case, quick=240, thorough=6000, shrink_quick=False),
     ]
